@@ -30,6 +30,23 @@ type taskSide struct {
 	cancelConst int64
 	prog        *Prog
 	lifted      map[ssa.Instruction]bool // helper calls standing for the sites they contain
+	bind        map[*ssa.Parameter]ssa.Value // while analysing a helper: its parameters -> arguments of the call site
+}
+
+// unbind replaces a helper parameter by the argument of the call site under analysis.
+func (s *taskSide) unbind(v ssa.Value) ssa.Value {
+	for k := 0; k < 4; k++ {
+		pr, ok := v.(*ssa.Parameter)
+		if !ok || s.bind == nil {
+			return v
+		}
+		a, ok := s.bind[pr]
+		if !ok {
+			return v
+		}
+		v = a
+	}
+	return v
 }
 
 func fieldVarOfLoad(v ssa.Value) *types.Var {
@@ -186,8 +203,8 @@ func containsRecover(f *ssa.Function) bool {
 	return found
 }
 
-func (s *taskSide) isCounterPtr(v ssa.Value) bool { return fieldVarOfLoad(v) == s.counter }
-func (s *taskSide) isCurID(v ssa.Value) bool      { return fieldVarOfLoad(v) == s.curID }
+func (s *taskSide) isCounterPtr(v ssa.Value) bool { return fieldVarOfLoad(s.unbind(v)) == s.counter }
+func (s *taskSide) isCurID(v ssa.Value) bool      { return fieldVarOfLoad(s.unbind(v)) == s.curID }
 
 // isCurMinus1 matches `cur - 1`.
 func (s *taskSide) isCurMinus1(v ssa.Value) bool {
@@ -509,6 +526,24 @@ func ruleCancel(p *Prog, r *RuleResult) {
 
 		// (a) spin loops (in the task function or in a helper extracted from it)
 		for _, lf := range append([]*ssa.Function{s.fn}, p.helperClosure(s.fn)...) {
+		  // a helper is analysed with its parameters bound to the arguments of (one of) its call sites
+		  s.bind = nil
+		  if lf != s.fn {
+			s.bind = map[*ssa.Parameter]ssa.Value{}
+			for _, caller := range append([]*ssa.Function{s.fn}, p.helperClosure(s.fn)...) {
+				eachInstr(caller, func(ci ssa.Instruction) {
+					if c := callOf(ci); c != nil && c.StaticCallee() == lf {
+						for k, prm := range lf.Params {
+							if k < len(c.Args) {
+								if _, done := s.bind[prm]; !done {
+									s.bind[prm] = c.Args[k]
+								}
+							}
+						}
+					}
+				})
+			}
+		  }
 		  for _, b := range lf.Blocks {
 			for _, in := range b.Instrs {
 				v, ok := in.(ssa.Value)
@@ -584,6 +619,7 @@ func ruleCancel(p *Prog, r *RuleResult) {
 			}
 		  }
 		}
+		s.bind = nil
 
 		// (b,c,e) deferred closure
 		d := s.deferred
@@ -806,8 +842,26 @@ func ruleCancel(p *Prog, r *RuleResult) {
 			}
 		})
 		if nreads == 0 {
+			// the scan of the results may live in a helper: its call must come after Wait
+			if sf, sc := scanFunction(p, s); sf != s.parent && sc != nil {
+				dom := false
+				for w := range waits {
+					if instrDominates(w, sc) {
+						dom = true
+					}
+				}
+				if dom {
+					nreads = 1
+					r.ok(fmt.Sprintf("%s hands the results to %s only after Wait", pname, sf.Name()), p.IPos(sc))
+				} else {
+					r.fail(fmt.Sprintf("%s#results-read", pname), p.IPos(sc), "task results are scanned on a path that has not passed WaitGroup.Wait")
+					nreads = 1
+				}
+			}
+		}
+		if nreads == 0 {
 			r.fail(pname+"#results-read", p.Pos(s.parent.Pos()), "processBlock never reads the task results: task errors are dropped")
-		} else {
+		} else if len(r.Findings) == 0 || nreads > 0 {
 			r.ok(fmt.Sprintf("%s reads results only after Wait (%d reads)", pname, nreads), p.Pos(s.parent.Pos()))
 		}
 	}
@@ -958,9 +1012,11 @@ func rulePoison(p *Prog, r *RuleResult) {
 		}
 		r.fail(pname+"#cancel-sticky", p.Pos(s.parent.Pos()), msg)
 	}
-	// first-error scan: the loop over results returns r.err when non-nil (some Return whose operand derives from the err field)
+	// first-error scan: the loop over results returns r.err when non-nil (in processBlock or in a scan helper whose
+	// result processBlock returns)
+	sf, sc := scanFunction(p, s)
 	scan := false
-	eachInstr(s.parent, func(i ssa.Instruction) {
+	eachInstr(sf, func(i ssa.Instruction) {
 		ret, ok := i.(*ssa.Return)
 		if !ok || len(ret.Results) == 0 {
 			return
@@ -975,7 +1031,10 @@ func rulePoison(p *Prog, r *RuleResult) {
 			}
 		}
 	})
-	errEdgeReturnsError(p, r, s.parent, s.errField)
+	errEdgeReturnsError(p, r, sf, s.errField)
+	if sf != s.parent && sc != nil {
+		scanResultPropagated(p, r, s.parent, sc)
+	}
 	if !scan {
 		r.fail(pname+"#first-error", p.Pos(s.parent.Pos()), "processBlock never returns a task's error: a failed task is not reported by the enclosing call")
 	} else {
@@ -1016,4 +1075,60 @@ func retMayBeNil(ret *ssa.Return, idx int) bool {
 		}
 	}
 	return true
+}
+
+// scanResultPropagated: the error result of a scan helper is returned by processBlock (directly, or tested and
+// returned on its non-nil edge).
+func scanResultPropagated(p *Prog, r *RuleResult, parent *ssa.Function, sc *ssa.Call) {
+	pname := p.FnName(parent)
+	ev, has := errResult(sc)
+	if !has || ev == nil {
+		r.fail(pname+"#scan-result", p.IPos(sc), "the error found by the result scan is discarded by processBlock")
+		return
+	}
+	// returned directly?
+	direct := false
+	seen := map[ssa.Value]bool{}
+	var walk func(v ssa.Value)
+	walk = func(v ssa.Value) {
+		if seen[v] {
+			return
+		}
+		seen[v] = true
+		for _, ref := range *v.Referrers() {
+			switch x := ref.(type) {
+			case *ssa.Return:
+				direct = true
+			case *ssa.MakeInterface:
+				walk(x)
+			case *ssa.ChangeInterface:
+				walk(x)
+			case *ssa.Phi:
+				walk(x)
+			}
+		}
+	}
+	walk(ev)
+	if ifi, succ, ok := errEdgeOf(sc); ok {
+		bad := false
+		for rb := range reach(ifi.Block().Succs[succ], nil, nil) {
+			if ret, ok := rb.Instrs[len(rb.Instrs)-1].(*ssa.Return); ok && rb != parent.Recover && retMayBeNil(ret, len(ret.Results)-1) {
+				// returning the tested value itself is fine
+				if !seen[stripConv(ret.Results[len(ret.Results)-1])] && !seen[ret.Results[len(ret.Results)-1]] {
+					bad = true
+				}
+			}
+		}
+		if bad {
+			r.fail(pname+"#scan-result", p.IPos(ifi), "after the result scan reported an error processBlock can still return without an error")
+		} else {
+			r.ok(pname+": the error of the result scan is returned", p.IPos(ifi))
+		}
+		return
+	}
+	if direct {
+		r.ok(pname+": the error of the result scan is returned", p.IPos(sc))
+	} else {
+		r.fail(pname+"#scan-result", p.IPos(sc), "the error found by the result scan is neither tested nor returned by processBlock")
+	}
 }
